@@ -127,11 +127,11 @@ Fixpoint loop (fuel : nat) (cfg : config) (s : st) : prog st :=
 (* ---- after the loop (pure) *)
 Definition I32MAX : N := 2147483647.
 
-(* the displacement: Some z with z in [-(2^31-1), 2^31-1], or None = "mdat displaced too far" *)
+(* the displacement: Some z with z in [-2^31, 2^31-1], or None = "mdat displaced too far" *)
 Definition displacement (data_off metadata_len : N) : option Z :=
   if metadata_len <=? data_off then
     let bwd := data_off - metadata_len in
-    if bwd <=? I32MAX then Some (- Z.of_N bwd)%Z else None       (* try_into::<i32>().ok().and_then(checked_neg) *)
+    if bwd <=? I32MAX + 1 then Some (- Z.of_N bwd)%Z else None   (* i64::try_from(bwd) then i32::try_from(-d): -2^31 is representable *)
   else
     let fwd := metadata_len - data_off in
     if fwd <=? I32MAX then Some (Z.of_N fwd) else None.
@@ -163,7 +163,7 @@ Definition finish (s : st) : prog out :=
     if (metadata_len <=? s_off data) && (gap =? 0) then
       _ <~ do_alloc metadata_len ;;
       Ret (Ok {| o_metadata := Some (hdr_put fh ++ fp ++ hdr_put mh ++ put_nodes kids, 0); o_data := data |})
-    else if (metadata_len <=? s_off data) && (PAD_HEADER_SIZE <=? gap) && (gap <=? MAX_PAD_SIZE) then
+    else if (metadata_len <=? s_off data) && (PAD_HEADER_SIZE <=? gap) && (gap <=? MAX_PAD_SIZE) && (gap <=? metadata_len) then
       _ <~ do_alloc (metadata_len + gap) ;;
       Ret (Ok {| o_metadata := Some (hdr_put fh ++ fp ++ hdr_put mh ++ put_nodes kids
                                        ++ hdr_put (with_u32_data_size (FourCC t_free) (gap - PAD_HEADER_SIZE)),
